@@ -1,3 +1,165 @@
 import GoagModel.Ref
+/-
+  C05 — path parameters seen by the handler are the matched path segments.
+
+  `Serve.progOf` is the model of how `NewOperation` / `NewHandler` compile a path template into
+  the alternating program of constant prefixes and variable extractors that the emitted
+  `new<Op>Params` runs (`Serve.runProg`); both are tied to the generated code on every run by
+  the `route` facets (every dispatched request's `Parse()` is compared with them).
+
+  The theorem: for EVERY template (any mix of literal and variable segments), every request
+  path made of the same number of '/'-free segments whose literal positions agree with the
+  template (which is what being dispatched means, C03), every constant still pending and every
+  accumulator, running the compiled program over the path gives exactly `refRun`: each
+  variable, in template order, receives the typed value of the segment AT ITS OWN POSITION; the
+  first variable whose segment is empty, or outside its type's lexical space, is the one the
+  error names; no other segment is ever consulted.
+-/
 namespace Goag.Serve
+open Goag.Spec
+
+/-- the request path below the base path made of the given segments -/
+def pathOf : List (List Char) → List Char
+  | [] => []
+  | s :: ss => '/' :: (s ++ pathOf ss)
+
+/-- the request was dispatched to this template: as many segments, literal ones equal -/
+def Dispatched : List TSeg → List (List Char) → Prop
+  | [], [] => True
+  | .lit d :: ts, s :: ss => s = d ∧ Dispatched ts ss
+  | .var _ _ :: ts, _ :: ss => Dispatched ts ss
+  | _, _ => False
+
+/-- the property's own words: position by position, each variable gets the typed value of its
+    own segment; empty → "required", outside the lexical space → "lexical", naming it -/
+def refRun (leaf : LeafTable) : List TSeg → List (List Char) → List (String × String) → Except PErr (List (String × String))
+  | .var n t :: ts, s :: ss, acc =>
+    if s.isEmpty then .error (.param "path" n "required") else
+    match pvalue leaf t (String.ofList s) with
+    | none => .error (.param "path" n "lexical")
+    | some d => refRun leaf ts ss (acc ++ [(n, d)])
+  | .lit _ :: ts, _ :: ss, acc => refRun leaf ts ss acc
+  | _, _, acc => .ok acc
+
+theorem pathOf_head (ss : List (List Char)) : pathOf ss = [] ∨ ∃ r, pathOf ss = '/' :: r := by
+  cases ss with
+  | nil => exact Or.inl rfl
+  | cons s t => exact Or.inr ⟨_, rfl⟩
+
+theorem takeWhile_seg (s rest : List Char) (hs : ∀ c ∈ s, c ≠ '/') (hr : rest = [] ∨ ∃ r, rest = '/' :: r) :
+    (s ++ rest).takeWhile (· != '/') = s ∧ (s ++ rest).dropWhile (· != '/') = rest := by
+  induction s with
+  | nil =>
+    rcases hr with h | ⟨r, h⟩ <;> subst h <;> simp
+  | cons c t ih =>
+    have hc : c ≠ '/' := hs c List.mem_cons_self
+    have ht := ih (fun x hx => hs x (List.mem_cons_of_mem _ hx))
+    simp [List.takeWhile_cons, List.dropWhile_cons, hc, ht.1, ht.2]
+
+theorem isPrefixOf_append (a b : List Char) : a.isPrefixOf (a ++ b) = true := by
+  induction a with
+  | nil => simp
+  | cons x t ih => simp [List.isPrefixOf, ih]
+
+theorem drop_append_len (a b : List Char) : (a ++ b).drop a.length = b := by
+  induction a with
+  | nil => simp
+  | cons x t ih => simp [ih]
+
+/-- **C05.** -/
+theorem runProg_progOf (leaf : LeafTable) (ts : List TSeg) (segs : List (List Char)) (pend : List Char)
+    (acc : List (String × String)) (hd : Dispatched ts segs) (hns : ∀ s ∈ segs, ∀ c ∈ s, c ≠ '/') :
+    runProg leaf (progOf ts pend) (pend ++ pathOf segs) acc = refRun leaf ts segs acc := by
+  induction ts generalizing segs pend acc with
+  | nil =>
+    cases segs with
+    | cons s ss => simp [Dispatched] at hd
+    | nil =>
+      simp only [progOf, pathOf, List.append_nil, refRun]
+      cases hp : pend.isEmpty with
+      | true => simp [runProg]
+      | false =>
+        have : pend.isPrefixOf pend = true := by simpa using isPrefixOf_append pend []
+        simp [runProg, this]
+  | cons t ts ih =>
+    cases segs with
+    | nil => cases t <;> simp [Dispatched] at hd
+    | cons s ss =>
+      have hss : ∀ s' ∈ ss, ∀ c ∈ s', c ≠ '/' := fun s' h => hns s' (List.mem_cons_of_mem _ h)
+      have hs : ∀ c ∈ s, c ≠ '/' := hns s List.mem_cons_self
+      cases t with
+      | lit d =>
+        simp only [Dispatched] at hd
+        obtain ⟨hsd, hd'⟩ := hd
+        subst hsd
+        simp only [progOf, refRun]
+        have := ih ss (pend ++ '/' :: s) acc hd' hss
+        simpa [pathOf, List.append_assoc] using this
+      | var n ty =>
+        simp only [Dispatched] at hd
+        simp only [progOf, refRun, pathOf]
+        have hpre : (pend ++ ['/']).isPrefixOf (pend ++ '/' :: (s ++ pathOf ss)) = true := by
+          have := isPrefixOf_append (pend ++ ['/']) (s ++ pathOf ss)
+          simpa [List.append_assoc] using this
+        have hdrop : (pend ++ '/' :: (s ++ pathOf ss)).drop (pend ++ ['/']).length = s ++ pathOf ss := by
+          have := drop_append_len (pend ++ ['/']) (s ++ pathOf ss)
+          simpa [List.append_assoc] using this
+        obtain ⟨htk, hdr⟩ := takeWhile_seg s (pathOf ss) hs (pathOf_head ss)
+        simp only [runProg, hpre, if_true, hdrop, htk, hdr]
+        cases hse : s.isEmpty with
+        | true => simp
+        | false =>
+          simp only [Bool.false_eq_true, if_false]
+          cases hv : pvalue leaf ty (String.ofList s) with
+          | none => simp
+          | some dv =>
+            simp only
+            have := ih ss [] (acc ++ [(n, dv)]) hd hss
+            simpa using this
+
+/-- on success the values are, in template order, the typed values of the variables' own
+    segments (and nothing else is added) -/
+def ownValues (leaf : LeafTable) : List TSeg → List (List Char) → List (String × Option String)
+  | .var n t :: ts, s :: ss => (n, pvalue leaf t (String.ofList s)) :: ownValues leaf ts ss
+  | .lit _ :: ts, _ :: ss => ownValues leaf ts ss
+  | _, _ => []
+
+theorem refRun_ok_values (leaf : LeafTable) (ts : List TSeg) (segs : List (List Char))
+    (acc out : List (String × String)) (h : refRun leaf ts segs acc = .ok out) :
+    (out.map (fun (n, d) => (n, some d))) = acc.map (fun (n, d) => (n, some d)) ++ ownValues leaf ts segs := by
+  induction ts generalizing segs acc with
+  | nil => simp [refRun] at h; subst h; simp [ownValues]
+  | cons t ts ih =>
+    cases segs with
+    | nil => cases t <;> (simp [refRun] at h; subst h; simp [ownValues])
+    | cons s ss =>
+      cases t with
+      | lit d => simp only [refRun] at h; simpa [ownValues] using ih ss acc h
+      | var n ty =>
+        simp only [refRun] at h
+        cases hse : s.isEmpty with
+        | true => simp [hse] at h
+        | false =>
+          simp only [hse, Bool.false_eq_true, if_false] at h
+          cases hv : pvalue leaf ty (String.ofList s) with
+          | none => simp [hv] at h
+          | some dv =>
+            simp only [hv] at h
+            have := ih ss (acc ++ [(n, dv)]) h
+            simp [ownValues, hv, this]
+
+/-- Non-vacuity: /shops/{shop}/pets/{id} on /shops/5/pets/7, /shops/5/pets/x and /shops//pets/7 -/
+def exTs : List TSeg := [TSeg.lit "shops".toList, .var "shop" .int, .lit "pets".toList, .var "id" .int]
+
+def outcomeOf (r : Except PErr (List (String × String))) : List String :=
+  match r with
+  | .ok vs => "ok" :: vs.map (fun (n, d) => n ++ "=" ++ d)
+  | .error (.param loc n k) => ["err", loc, n, k]
+  | .error .wrongPath => ["wrong-path"]
+
+example : outcomeOf (runProg [] (progOf exTs []) "/shops/5/pets/7".toList []) = ["ok", "shop=i:5", "id=i:7"] := by decide
+example : outcomeOf (runProg [] (progOf exTs []) "/shops/5/pets/x".toList []) = ["err", "path", "id", "lexical"] := by decide
+example : outcomeOf (runProg [] (progOf exTs []) "/shops//pets/7".toList []) = ["err", "path", "shop", "required"] := by decide
+example : Dispatched exTs ["shops".toList, "5".toList, "pets".toList, "7".toList] := by simp [Dispatched, exTs]
+
 end Goag.Serve
